@@ -227,7 +227,8 @@ def choose(rng, w):
         return {"op": "pycopy", "dst": dst, "src": rng.choice(tabs), "how": rng.choice(["copy", "deepcopy"])}
     if op == "concat":
         # `<<` with nothing to add on one side: the result is still an operation result with storage of its own
-        return {"op": op, "dst": dst, "src": rng.choice(vecs), "form": rng.choice(["list0", "vec0", "rlist0", "tuple0", "vec0l", "list1", "mask0", "sort"])}
+        return {"op": op, "dst": dst, "src": rng.choice(vecs), "form": rng.choice(["list0", "vec0", "rlist0", "tuple0", "vec0l", "list1", "mask0", "sort", "fillna0", "fillnaNone", "dropna",
+                                                                                "cast", "toobj", "pos", "idxall", "head", "tail", "unique", "fillna0", "dropna"])}
     if op == "write":
         return {"op": op, "r": rng.choice(vecs), "promote": rng.random() < 0.2, "form": rng.choice(["int", "int", "slice", "mask"])}
     if op == "tabfrom":
@@ -348,6 +349,36 @@ def run_step(slots, pool, st):
             slots[st["dst"]] = src[[True] * len(src)]
         elif f == "sort":
             slots[st["dst"]] = src.sort_by()
+        elif f in ("fillna0", "fillnaNone", "dropna", "cast", "toobj", "pos", "idxall", "head", "tail", "unique"):
+            # derivations that often have nothing to do (no None to fill or drop, a cast to the kind the vector has, all
+            # positions selected): the result is a new vector all the same and must not share the source's storage
+            n = len(src)
+            try:
+                if f == "fillna0":
+                    first = next((x for x in src if x is not None), 0)
+                    r = src.fillna(first)
+                elif f == "fillnaNone":
+                    r = src.fillna(None)
+                elif f == "dropna":
+                    r = src.dropna()
+                elif f == "cast":
+                    r = src.cast(src.schema().kind) if src.schema() is not None else src.copy()
+                elif f == "toobj":
+                    r = src.to_object()
+                elif f == "pos":
+                    r = +src
+                elif f == "idxall":
+                    r = src[list(range(n))] if n else src.copy()
+                elif f == "head":
+                    r = src.head(n + 1)
+                elif f == "tail":
+                    r = src.tail(n + 1)
+                else:
+                    r = src.unique() if len(set(map(id, src))) == n else src.copy()
+            except Exception:
+                r = src.copy()
+            slots[st["dst"]] = r if isinstance(r, Vector) and r is not src else src.copy()
+            del r
         else:
             slots[st["dst"]] = src << [7]
         del src
